@@ -14,11 +14,11 @@ SPEC = {
                       "vector type, is run through every query against the set of lattice points it contains; every box whose per-axis (min,max) is one of (LOWEST,MAX), (LOWEST,1), "
                       "(0,MAX), (0,1), (MAX,LOWEST), (MAX,MAX) (infinite on some axes only, one bound at the end of the range, canonically inverted on one axis) is run through "
                       "isInfinite/isEmpty/hasVolume/intersects(point)/intersects(box)/extendBy and, where the arithmetic is defined, size/center/majorAxis against per-axis predicates "
-                      "on exact wide values; extendBy(point)/extendBy(box) histories are explored breadth-first on the real objects until no new state appears (so all history lengths "
+                      "on exact wide values; every box whose per-axis (min,max) has both bounds large and of the same sign ((MAX-1,MAX), (MAX/2+1,MAX), (LOWEST,LOWEST/2-1), (LOWEST,LOWEST+1), (MAX/4,MAX/2), (LOWEST/2,LOWEST/4), (MAX,MAX), (LOWEST,LOWEST), (0,1); also Interval<signed char>/Interval<unsigned char>) is run through the predicates, membership, size, majorAxis and - wherever max+min is representable in the element type or is formed in int by integral promotion (Interval of short / char: every pair) - center; extendBy(point)/extendBy(box) histories are explored breadth-first on the real objects until no new state appears (so all history lengths "
                       "are covered for the alphabet); clip/closestPoint* are compared with the exact nearest point; transform/affineTransform (4 overloads, out-parameter forms "
                       "pre-filled, float/double boxes and Box3i/Box3s) are compared with the exact images of the 8 corners on non-negative and on signed (negative / zero-straddling) "
                       "boxes, for affine matrices and for projective matrices with w>0, w<0 and mixed-sign w on the corners; the two transform overloads also for projective matrices whose perspective entries are 2^-K times {-1,0,1,2} (so small that their squares underflow to zero in the matrix element type; controls with a representable square) on boxes scaled by 2^K on all axes or on the axes of a mask only, where the corner images are the small-integer ones times powers of two.",
-        "level_note": "Bounded scope: coordinates are small integers or the ends of the element type's range (exactly representable in every element type), so rounding inside Box "
+        "level_note": "center() is not called where max+min is not representable in the arithmetic the type performs (int/int64: signed overflow; Box<VecN<short>>: the sum is narrowed to short by Vec::operator+; floating types: the sum rounds to infinity). Bounded scope: coordinates are small integers or the ends of the element type's range (exactly representable in every element type), so rounding inside Box "
                       "itself is exercised only where size() of a partially infinite float box overflows to +inf and where center() rounds 1+LOWEST; transforms are checked for integer "
                       "affine matrices (exact, also for integer boxes) and small-integer projective matrices with w != 0 on all corners of the box (2 ulp; 'contains the image of every "
                       "point' only where w has one sign on the box); integer boxes under projective matrices only where the corner images are integers (w = +-2). Integer boxes with "
@@ -29,7 +29,7 @@ SPEC = {
         "rule": "exhaustive: all 16^D (min,max) boxes x all 6^D points, all ordered box pairs, all 6^D extreme-bound boxes x 6^D extreme points and all their ordered pairs and extendBy "
                 "steps, BFS over extendBy to a fixpoint, all listed matrices x 1000 (2000 for integer boxes) boxes; non-trivial = by a "
                 "predicate on the input the box is inverted / flat / a single point / canonical empty or infinite / infinite on some axes only / has only min or only max at the end of "
-                "the range / is canonically inverted on some axes only, size() is not representable, the pair has an inverted operand or touches only on the boundary or "
+                "the range / is canonically inverted on some axes only, size() is not representable, max+min lies beyond the element type's range (judged through int promotion / not called) or is large and representable, the pair has an inverted operand or touches only on the boundary or "
                 "overlaps, majorAxis has a tie, the extendBy step starts from the empty set / lowers min / raises max / moves a bound to LOWEST or MAX / has an empty argument, the "
                 "point is outside / on the boundary (clip, closestPointOnBox: strictly inside, on the surface, equidistant faces, empty box), the matrix block is zero/sparse/full or "
                 "has a negative entry (Arvo's a>=b branch), the box has a negative coordinate / straddles zero / is an integer box, the matrix is projective with w positive / "
